@@ -149,7 +149,14 @@ package limiter
 //@   immutable: delegateListener, c
 
 //@ func NewBlockingLimiter
+//@   requires cfg: delegate != nil
+//@   establishes[C13] result
 //@   ensures[C13,C19] fields: result != nil && result.delegate == delegate && result.timeout == max(0, timeout) && result.c != nil && result.logger != nil
+
+//@ func NewDeadlineLimiter
+//@   requires cfg: delegate != nil
+//@   establishes[C13] result
+//@   ensures[C13] fields: result != nil && result.delegate == delegate && result.deadline == deadline && result.c != nil && result.logger != nil
 
 //@ func (*BlockingLimiter).tryAcquire
 //@   maintains l
@@ -200,6 +207,7 @@ package limiter
 // Queue limiter (C02, C11, C12, C13). container/list is a ghost-state stub: lmember(list, e),
 // lstamp(e) (arrival order; PushFront stamps increase), llen(list), lvalue(e) = the element's Value.
 //@ type queue
+//@   partof QueueBlockingLimiter
 //@   immutable: list, ordering
 //@   inv deps: this.list != nil
 //@ type queueElement
@@ -310,6 +318,8 @@ package limiter
 //@   ensures[C13] evict_flag_kept: c.BacklogEvictDoneCtx == old(c.BacklogEvictDoneCtx)
 
 //@ func NewQueueBlockingLimiterFromConfig
+//@   requires cfg: delegate != nil
+//@   establishes[C12] result
 //@   ensures[C11] ordering_wired: result != nil && result.backlog != nil && result.backlog.ordering == ite(config.Ordering == "", "lifo", config.Ordering)
 //@   ensures[C12] bound_wired: result.maxBacklogSize == uint64(ite(config.MaxBacklogSize <= 0, 100, config.MaxBacklogSize))
 //@   ensures[C13] timeout_wired: result.maxBacklogTimeout == ite(config.MaxBacklogTimeout == 0, 1000000000, config.MaxBacklogTimeout) && result.backlogEvictDoneCtx == config.BacklogEvictDoneCtx
